@@ -240,6 +240,9 @@ class Schema(dict, metaclass=LogicalMeta):
                 raise e.__class__(msg) from e
             else:
                 warnings.warn(msg)
+            if field.name in self:
+                # what was calculated from other data does not stay
+                super().__delitem__(field.name)
             return
 
         value = field.parse_output_value(  # parse @property result also
@@ -247,6 +250,8 @@ class Schema(dict, metaclass=LogicalMeta):
         )
 
         if unprovided(value):
+            if field.name in self:
+                super().__delitem__(field.name)
             return
 
         if not field.is_no_output(value, options=context.options):
@@ -320,6 +325,21 @@ class Schema(dict, metaclass=LogicalMeta):
         context = self.__parser__.make_context(force_error=True)
         value = field.parse_value(value, context=context)
 
+        before = None
+        if field.dependants or field.property:
+            # calculating a property can fail after the value is stored: an assignment that raises leaves the data as it was
+            before = dict(dict.items(self)), dict(self.__dict__)
+        try:
+            self.__store_field__(value, field=field, setter=setter, context=context)
+        except Exception:
+            if before:
+                super().clear()
+                super().update(before[0])
+                self.__dict__.clear()
+                self.__dict__.update(before[1])
+            raise
+
+    def __store_field__(self, value, field: ParserField, setter: Callable, context: RuntimeContext):
         if unprovided(value):
             # an invalid value under the 'exclude' policy and no default to take its place:
             # the field is left out, as it is at initialization (never store the marker)
